@@ -143,13 +143,22 @@ def twin(c, u1, u2, Q):
 # ---------------------------------------------------------------------------
 # public key validity (SEC 1 v2 3.2.2.1, with the neutral element reported apart)
 # ---------------------------------------------------------------------------
+_valid_cache = {}
+
+
 def valid_point(c, P):
     """C09 predicate: O, or on the curve (coordinates in [0,p-1]) and n*P = O."""
     if P is None:
         return True
     if not ec.on_curve(c, P):
         return False
-    return mul(c, c.n, P) is None
+    key = (c.name, P)
+    v = _valid_cache.get(key)
+    if v is None:
+        v = mul(c, c.n, P) is None
+        if len(_valid_cache) < 50000:
+            _valid_cache[key] = v
+    return v
 
 
 def valid_public_key(c, Q):
